@@ -10,8 +10,10 @@
 //! ORACLE_FAIL key = `<stack>/<protocol>/<variant>/<what>`.
 //! CASE = `(C<Proto> message bytes)`: inside Coq the model must be in the theorems' domain,
 //! write the same bytes and read them back to the same message.
-//! The long-tail codecs (localmsgnotification/-submission, localstate queries, the
-//! localtxsubmission reject reasons) are oracle-only (c22_parts/tail.rs).
+//! Every run starts with a deterministic sweep: every variant (incl. payload-free / empty ones) and
+//! every integer field on every CBOR head-width boundary of its type; then random rounds.
+//! The long-tail codecs (GetCBOR-wrapped localstate queries, the localtxsubmission reject
+//! reasons) are oracle-only (c22_parts/tail.rs).
 #[path = "c22_parts/scan.rs"] mod scan;
 #[path = "c22_parts/ir.rs"] mod ir;
 #[path = "c22_parts/tail.rs"] mod tail;
@@ -26,7 +28,7 @@ use std::fmt::Debug;
 use std::net::{Ipv4Addr, Ipv6Addr};
 use verif_harness::*;
 
-pub struct Ctx { pub oracle_only: bool, pub cases: u64, pub fails: u64, pub tail: u64, pub dec_cases: u64, pub mrng: Rng }
+pub struct Ctx { pub oracle_only: bool, pub cases: u64, pub fails: u64, pub tail: u64, pub dec_cases: u64, pub mutants: u32, pub mrng: Rng }
 
 /// encode / scan / decode one message; `back` converts the decoded message to the IR.
 pub fn run_one<M, I, B>(cx: &mut Ctx, stack: &str, proto: &str, variant: &str, ir: &I, msg: &M, back: B, coq: Option<String>)
@@ -59,7 +61,7 @@ where M: Encode<()> + for<'b> Decode<'b, ()> + Debug, I: PartialEq + Debug, B: F
         // decoder differential on mutants of this encoding
         if let Some((k, framing_only)) = dec_kind(stack, proto, variant) {
             if bytes.len() <= 600 {
-                for _ in 0..2 {
+                for _ in 0..cx.mutants {
                     let (how, mutant) = mutate(&mut cx.mrng, &bytes, framing_only);
                     run_dec::<M>(cx, k, &format!("decode-{}-{}", proto, how), &mutant);
                 }
@@ -75,7 +77,7 @@ fn dec_kind(stack: &str, proto: &str, _variant: &str) -> Option<(u32, bool)> {
     let k = match proto {
         "keepalive" => 0, "blockfetch" => 1, "chainsync-header" => 2, "chainsync-block" => 3, "chainsync-skipped" => 4, "txsubmission" => 5,
         "peersharing" => if stack == "n1" { 6 } else { 7 }, "handshake-n2n" => 8, "handshake-n2c" => 9, "localstate" => 10, "txmonitor" => 11,
-        "leiosnotify" => 12, "leiosfetch" => 13, _ => return None,
+        "leiosnotify" => 12, "leiosfetch" => 13, "localmsgsubmission" => 14, "localmsgnotification" => 15, _ => return None,
     };
     Some((k, opaque))
 }
@@ -382,86 +384,274 @@ fn parse_n2c(s: &str) -> Option<N2c> {
     Some((a.parse().ok()?, q))
 }
 
+// ================================================================== pallas-network: DMQ protocols, query requests
+mod s1x {
+    use super::*;
+    use n1::{localmsgnotification as lmn, localmsgsubmission as lms, localstate::queries_v16 as q16, localtxsubmission as ltx};
+    fn dmq(m: &Dmq) -> lms::DmqMsg {
+        lms::DmqMsg { msg_id: m.id.clone(), msg_payload: lms::DmqMsgPayload { msg_body: m.body.clone(), kes_period: m.kes_period, expires_at: m.expires_at },
+            kes_signature: m.kes_sig.clone(),
+            operational_certificate: lms::DmqMsgOperationalCertificate { kes_vk: m.kes_vk.clone(), issue_number: m.issue, start_kes_period: m.start, cert_sig: m.cert_sig.clone() },
+            cold_verification_key: m.cold_vk.clone() }
+    }
+    fn dmq_b(m: &lms::DmqMsg) -> Dmq {
+        Dmq { id: m.msg_id.clone(), body: m.msg_payload.msg_body.clone(), kes_period: m.msg_payload.kes_period, expires_at: m.msg_payload.expires_at, kes_sig: m.kes_signature.clone(),
+              kes_vk: m.operational_certificate.kes_vk.clone(), issue: m.operational_certificate.issue_number, start: m.operational_certificate.start_kes_period,
+              cert_sig: m.operational_certificate.cert_sig.clone(), cold_vk: m.cold_verification_key.clone() }
+    }
+    pub type LmsMsg = ltx::Message<lms::DmqMsg, lms::DmqMsgValidationError>;
+    pub fn lms(m: &Lms) -> LmsMsg {
+        use lms::DmqMsgRejectReason as R;
+        match m {
+            Lms::Submit(x) => ltx::Message::SubmitTx(dmq(x)), Lms::Accept => ltx::Message::AcceptTx, Lms::Done => ltx::Message::Done,
+            Lms::Reject(x) => ltx::Message::RejectTx(lms::DmqMsgValidationError(match x {
+                DmqReason::Invalid(s) => R::Invalid(s.clone()), DmqReason::AlreadyReceived => R::AlreadyReceived, DmqReason::Expired => R::Expired, DmqReason::Other(s) => R::Other(s.clone()) })),
+        }
+    }
+    pub fn lms_b(m: &LmsMsg) -> Option<Lms> {
+        use lms::DmqMsgRejectReason as R;
+        Some(match m {
+            ltx::Message::SubmitTx(x) => Lms::Submit(dmq_b(x)), ltx::Message::AcceptTx => Lms::Accept, ltx::Message::Done => Lms::Done,
+            ltx::Message::RejectTx(x) => Lms::Reject(match &x.0 {
+                R::Invalid(s) => DmqReason::Invalid(s.clone()), R::AlreadyReceived => DmqReason::AlreadyReceived, R::Expired => DmqReason::Expired, R::Other(s) => DmqReason::Other(s.clone()) }),
+        })
+    }
+    pub fn lmn(m: &Lmn) -> lmn::Message {
+        match m {
+            Lmn::RequestNonBlocking => lmn::Message::RequestMessagesNonBlocking, Lmn::RequestBlocking => lmn::Message::RequestMessagesBlocking,
+            Lmn::ReplyNonBlocking(l, h) => lmn::Message::ReplyMessagesNonBlocking(l.iter().map(dmq).collect(), *h),
+            Lmn::ReplyBlocking(l) => lmn::Message::ReplyMessagesBlocking(l.iter().map(dmq).collect()), Lmn::ClientDone => lmn::Message::ClientDone,
+        }
+    }
+    pub fn lmn_b(m: &lmn::Message) -> Option<Lmn> {
+        Some(match m {
+            lmn::Message::RequestMessagesNonBlocking => Lmn::RequestNonBlocking, lmn::Message::RequestMessagesBlocking => Lmn::RequestBlocking,
+            lmn::Message::ReplyMessagesNonBlocking(l, h) => Lmn::ReplyNonBlocking(l.iter().map(dmq_b).collect(), *h),
+            lmn::Message::ReplyMessagesBlocking(l) => Lmn::ReplyBlocking(l.iter().map(dmq_b).collect()), lmn::Message::ClientDone => Lmn::ClientDone,
+        })
+    }
+    fn bq(tag: u16) -> Option<q16::BlockQuery> {
+        use q16::BlockQuery as B;
+        Some(match tag {
+            0 => B::GetLedgerTip, 1 => B::GetEpochNo, 3 => B::GetCurrentPParams, 4 => B::GetProposedPParamsUpdates, 5 => B::GetStakeDistribution, 7 => B::GetUTxOWhole,
+            8 => B::DebugEpochState, 11 => B::GetGenesisConfig, 12 => B::DebugNewEpochState, 13 => B::DebugChainDepState, 14 => B::GetRewardProvenance, 16 => B::GetStakePools,
+            18 => B::GetRewardInfoPools, 23 => B::GetConstitution, 24 => B::GetGovState, 29 => B::GetAccountState, 32 => B::GetRatifyState, 33 => B::GetFuturePParams,
+            34 => B::GetBigLedgerPeerSnapshot, 37 => B::GetStakeDistribution2, _ => return None,
+        })
+    }
+    pub fn lq(m: &Lq) -> q16::Request {
+        match m {
+            Lq::Block(e, t) => q16::Request::LedgerQuery(q16::LedgerQuery::BlockQuery(*e, bq(*t).expect("parameterless tag"))),
+            Lq::HardFork(t) => q16::Request::LedgerQuery(q16::LedgerQuery::HardForkQuery(if *t == 0 { q16::HardForkQuery::GetInterpreter } else { q16::HardForkQuery::GetCurrentEra })),
+            Lq::SystemStart => q16::Request::GetSystemStart, Lq::ChainBlockNo => q16::Request::GetChainBlockNo, Lq::ChainPoint => q16::Request::GetChainPoint,
+        }
+    }
+    pub fn lq_b(m: &q16::Request) -> Option<Lq> {
+        Some(match m {
+            q16::Request::LedgerQuery(q16::LedgerQuery::BlockQuery(e, b)) => { let t = *LQ_NULLARY.iter().find(|t| bq(**t).as_ref() == Some(b))?; Lq::Block(*e, t) }
+            q16::Request::LedgerQuery(q16::LedgerQuery::HardForkQuery(h)) => Lq::HardFork(match h { q16::HardForkQuery::GetInterpreter => 0, q16::HardForkQuery::GetCurrentEra => 1 }),
+            q16::Request::GetSystemStart => Lq::SystemStart, q16::Request::GetChainBlockNo => Lq::ChainBlockNo, q16::Request::GetChainPoint => Lq::ChainPoint,
+        })
+    }
+}
+
+// ================================================================== one message through every stack that has the protocol
+fn do_ka(cx: &mut Ctx, m: &Ka) { let (t, n) = t_ka(m);
+    run_one(cx, "n1", "keepalive", n, m, &s1::ka(m), s1::ka_b, Some(format!("(CKa {} @BYTES@)", t)));
+    run_one(cx, "n2", "keepalive", n, m, &s2::ka(m), s2::ka_b, Some(format!("(CKa {} @BYTES@)", t))); }
+fn do_bf(cx: &mut Ctx, m: &Bf) { let (t, n) = t_bf(m);
+    run_one(cx, "n1", "blockfetch", n, m, &s1::bf(m), s1::bf_b, Some(format!("(CBf {} @BYTES@)", t)));
+    run_one(cx, "n2", "blockfetch", n, m, &s2::bf(m), s2::bf_b, Some(format!("(CBf {} @BYTES@)", t))); }
+fn do_csh(cx: &mut Ctx, m: &Cs<Hdr>) {
+    let (t, n) = t_cs(m, t_hdr);
+    let refused = matches!(m, Cs::RollForward(h, _) if h.variant == 0 && h.prefix.is_none());
+    if refused {
+        // unrepresentable (variant 0 without byron prefix): the encoder must refuse it; the model agrees
+        for (stack, res) in [("n1", guard(|| minicbor::to_vec(&s1::cs(m, s1::hdr)).map_err(|e| e.to_string()))), ("n2", guard(|| minicbor::to_vec(&s2::cs(m, s2::hdr)).map_err(|e| e.to_string())))] {
+            match res {
+                Out::Err(_) => if !cx.oracle_only { cx.cases += 1; emit_case(&format!("{}-chainsync-header-RollForward-refused", stack), &format!("(CCsH {} None)", t)) },
+                Out::Ok(b) => emit_oracle_fail(&format!("{}/chainsync-header/RollForward/encode-accepts-unrepresentable", stack), &format!("message={:?} encoded to {}", m, hex(&b))),
+                Out::Panic(p) => emit_oracle_fail(&format!("{}/chainsync-header/RollForward/encode-panic", stack), &format!("message={:?} panicked: {}", m, p)),
+            }
+        }
+    } else {
+        run_one(cx, "n1", "chainsync-header", n, m, &s1::cs(m, s1::hdr), |x| s1::cs_b(x, s1::hdr_b), Some(format!("(CCsH {} (Some @BYTES@))", t)));
+        run_one(cx, "n2", "chainsync-header", n, m, &s2::cs(m, s2::hdr), |x| s2::cs_b(x, s2::hdr_b), Some(format!("(CCsH {} (Some @BYTES@))", t)));
+    }
+}
+fn do_csb(cx: &mut Ctx, m: &Cs<Vec<u8>>) { let (t, n) = t_cs(m, |b| coq_bytes(b));
+    run_one(cx, "n1", "chainsync-block", n, m, &s1::cs(m, |b| n1::chainsync::BlockContent(b.clone())), |x| s1::cs_b(x, |b: &n1::chainsync::BlockContent| b.0.clone()), Some(format!("(CCsB {} @BYTES@)", t)));
+    run_one(cx, "n2", "chainsync-block", n, m, &s2::cs(m, |b| n2::chainsync::BlockContent(b.clone())), |x| s2::cs_b(x, |b: &n2::chainsync::BlockContent| b.0.clone()), Some(format!("(CCsB {} @BYTES@)", t))); }
+fn do_css(cx: &mut Ctx, m: &Cs<()>) { let (t, n) = t_cs(m, |_| "tt".to_string());
+    run_one(cx, "n1", "chainsync-skipped", n, m, &s1::cs(m, |_| n1::chainsync::SkippedContent), |x| s1::cs_b(x, |_: &n1::chainsync::SkippedContent| ()), Some(format!("(CCsS {} @BYTES@)", t)));
+    run_one(cx, "n2", "chainsync-skipped", n, m, &s2::cs(m, |_| n2::chainsync::SkippedContent), |x| s2::cs_b(x, |_: &n2::chainsync::SkippedContent| ()), Some(format!("(CCsS {} @BYTES@)", t))); }
+fn do_ts(cx: &mut Ctx, m: &Ts) { let (t, n) = t_ts(m);
+    run_one(cx, "n1", "txsubmission", n, m, &s1::ts(m), s1::ts_b, Some(format!("(CTs {} @BYTES@)", t)));
+    run_one(cx, "n2", "txsubmission", n, m, &s2::ts(m), s2::ts_b, Some(format!("(CTs {} @BYTES@)", t))); }
+/// pallas-network always; pallas-network2 when every port fits its u16 Port
+fn do_ps(cx: &mut Ctx, m: &Ps, n1_too: bool) { let (t, n) = t_ps(m);
+    if n1_too { run_one(cx, "n1", "peersharing", n, m, &s1::ps(m), s1::ps_b, Some(format!("(CPs 4294967296 {} @BYTES@)", t))); }
+    let fits = match m { Ps::SharePeers(l) => l.iter().all(|a| match a { Pa::V4(_, p) | Pa::V6(_, p) => *p <= 65535 }), _ => true };
+    if fits { run_one(cx, "n2", "peersharing", n, m, &s2::ps(m), s2::ps_b, Some(format!("(CPs 65536 {} @BYTES@)", t))); } }
+fn do_hsn(cx: &mut Ctx, m: &Hs<N2n>) { let (t, n) = t_hs(m, t_n2n);
+    run_one(cx, "n1", "handshake-n2n", n, m, &s1::hs(m, s1::n2n), |x| s1::hs_b(x, s1::n2n_b), Some(format!("(CHsN {} @BYTES@)", t)));
+    run_one(cx, "n2", "handshake-n2n", n, m, &s2::hs(m, s2::n2n), |x| s2::hs_b(x, s2::n2n_b), Some(format!("(CHsN {} @BYTES@)", t))); }
+fn do_hsc(cx: &mut Ctx, m: &Hs<N2c>) { let (t, n) = t_hs(m, t_n2c);
+    run_one(cx, "n1", "handshake-n2c", n, m, &s1::hs(m, s1::n2c), |x| s1::hs_b(x, s1::n2c_b), Some(format!("(CHsC {} @BYTES@)", t)));
+    run_one(cx, "n2", "handshake-n2c", n, m, &s2::hs(m, s2::n2c), |x| s2::hs_b(x, s2::n2c_b), Some(format!("(CHsC {} @BYTES@)", t))); }
+fn do_ls(cx: &mut Ctx, m: &Ls) { let (t, n) = t_ls(m); run_one(cx, "n1", "localstate", n, m, &s1::ls(m), s1::ls_b, Some(format!("(CLs {} @BYTES@)", t))); }
+fn do_ltx(cx: &mut Ctx, m: &Ltx) { let (t, n) = t_ltx(m); run_one(cx, "n1", "localtxsubmission", n, m, &s1::ltx(m), s1::ltx_b, Some(format!("(CLtx {} @BYTES@)", t))); }
+fn do_tm(cx: &mut Ctx, m: &Tm) { let (t, n) = t_tm(m); run_one(cx, "n1", "txmonitor", n, m, &s1::tm(m), s1::tm_b, Some(format!("(CTm {} @BYTES@)", t))); }
+fn do_ln(cx: &mut Ctx, m: &Ln) { let (t, n) = t_ln(m); run_one(cx, "n2", "leiosnotify", n, m, &s2::ln(m), s2::ln_b, Some(format!("(CLn {} @BYTES@)", t))); }
+fn do_lf(cx: &mut Ctx, m: &Lf) { let (t, n) = t_lf(m); run_one(cx, "n2", "leiosfetch", n, m, &s2::lf(m), s2::lf_b, Some(format!("(CLf {} @BYTES@)", t))); }
+fn do_lms(cx: &mut Ctx, m: &Lms) { let (t, n) = t_lms(m); run_one(cx, "n1", "localmsgsubmission", n, m, &s1x::lms(m), s1x::lms_b, Some(format!("(CLms {} @BYTES@)", t))); }
+fn do_lmn(cx: &mut Ctx, m: &Lmn) { let (t, n) = t_lmn(m); run_one(cx, "n1", "localmsgnotification", n, m, &s1x::lmn(m), s1x::lmn_b, Some(format!("(CLmn {} @BYTES@)", t))); }
+fn do_lq(cx: &mut Ctx, m: &Lq) { let (t, n) = t_lq(m); run_one(cx, "n1", "localstate-query", &n, m, &s1x::lq(m), s1x::lq_b, Some(format!("(CLq {} @BYTES@)", t))); }
+
+/// Deterministic part of every run: every variant incl. the payload-free / empty ones, and every integer
+/// field of every message on every CBOR head-width boundary of its Rust type.
+fn sweep(cx: &mut Ctx) {
+    let h32 = || (0u8..32).collect::<Vec<u8>>();
+    let sp = |s: u64| Pt::Specific(s, vec![0xab; 4]);
+    let lens = [0usize, 1, 23, 24, 255, 256];
+    let b64 = bounds(u64::MAX); let b32 = bounds(u32::MAX as u64); let b16 = bounds(u16::MAX as u64); let b8 = bounds(u8::MAX as u64);
+    // keepalive
+    for c in &b16 { do_ka(cx, &Ka::KeepAlive(*c as u16)); do_ka(cx, &Ka::Response(*c as u16)); }
+    do_ka(cx, &Ka::Done);
+    // blockfetch
+    for s in &b64 { do_bf(cx, &Bf::RequestRange(Pt::Specific(*s, h32()), Pt::Origin)); do_bf(cx, &Bf::RequestRange(Pt::Origin, Pt::Specific(*s, vec![]))); }
+    for l in lens { do_bf(cx, &Bf::Block(vec![7; l])); do_bf(cx, &Bf::RequestRange(Pt::Specific(1, vec![9; l]), Pt::Origin)); }
+    for m in [Bf::ClientDone, Bf::StartBatch, Bf::NoBlocks, Bf::BatchDone] { do_bf(cx, &m); }
+    // chainsync (three content types)
+    for (i, s) in b64.iter().enumerate() {
+        let s2 = b64[(i + 5) % b64.len()];
+        do_csh(cx, &Cs::RollBackward(sp(*s), TipI(Pt::Origin, s2))); do_csh(cx, &Cs::IntersectFound(Pt::Origin, TipI(sp(s2), *s))); do_csh(cx, &Cs::IntersectNotFound(TipI(sp(*s), s2)));
+        do_csb(cx, &Cs::RollBackward(sp(*s), TipI(Pt::Origin, s2))); do_csb(cx, &Cs::IntersectFound(sp(s2), TipI(sp(s2), *s))); do_csb(cx, &Cs::RollForward(vec![1], TipI(sp(*s), s2)));
+        do_css(cx, &Cs::RollForward((), TipI(sp(*s), s2)));
+        do_csh(cx, &Cs::RollForward(Hdr { variant: 0, prefix: Some((b8[i % b8.len()] as u8, *s)), cbor: vec![0x80] }, TipI(Pt::Origin, 0)));
+    }
+    for v in &b8 { if *v != 0 { do_csh(cx, &Cs::RollForward(Hdr { variant: *v as u8, prefix: None, cbor: vec![0x80] }, TipI(Pt::Origin, 1))); } }
+    for l in lens { do_csh(cx, &Cs::RollForward(Hdr { variant: 6, prefix: None, cbor: vec![1; l] }, TipI(Pt::Origin, 1))); do_csb(cx, &Cs::RollForward(vec![2; l], TipI(Pt::Origin, 1))); }
+    for k in [0usize, 1, 23, 24] {
+        let ps: Vec<Pt> = (0..k).map(|j| if j % 2 == 0 { Pt::Origin } else { sp(j as u64) }).collect();
+        do_csh(cx, &Cs::FindIntersect(ps.clone())); do_csb(cx, &Cs::FindIntersect(ps.clone())); do_css(cx, &Cs::FindIntersect(ps));
+    }
+    do_csh(cx, &Cs::RequestNext); do_csh(cx, &Cs::AwaitReply); do_csh(cx, &Cs::Done);
+    do_csb(cx, &Cs::RequestNext); do_csb(cx, &Cs::AwaitReply); do_csb(cx, &Cs::Done);
+    do_css(cx, &Cs::RequestNext); do_css(cx, &Cs::AwaitReply); do_css(cx, &Cs::Done); do_css(cx, &Cs::RollBackward(Pt::Origin, TipI(Pt::Origin, 0)));
+    // txsubmission
+    for (i, a) in b16.iter().enumerate() { do_ts(cx, &Ts::RequestTxIds(i % 2 == 0, *a as u16, b16[(i + 3) % b16.len()] as u16)); }
+    for e in &b16 { do_ts(cx, &Ts::RequestTxs(vec![(*e as u16, h32())])); do_ts(cx, &Ts::ReplyTxs(vec![(*e as u16, vec![0x80])])); }
+    for z in &b32 { do_ts(cx, &Ts::ReplyTxIds(vec![((6, h32()), *z as u32)])); }
+    for e in &b16 { do_ts(cx, &Ts::ReplyTxIds(vec![((*e as u16, vec![]), 1)])); }
+    for m in [Ts::Init, Ts::Done, Ts::ReplyTxIds(vec![]), Ts::RequestTxs(vec![]), Ts::ReplyTxs(vec![])] { do_ts(cx, &m); }
+    // peersharing
+    for n in &b8 { do_ps(cx, &Ps::ShareRequest(*n as u8), true); }
+    do_ps(cx, &Ps::SharePeers(vec![]), true); do_ps(cx, &Ps::Done, true);
+    for (i, ip) in b32.iter().enumerate() { do_ps(cx, &Ps::SharePeers(vec![Pa::V4(*ip as u32, b32[(i + 2) % b32.len()] as u32)]), true); }
+    for p in &b16 { do_ps(cx, &Ps::SharePeers(vec![Pa::V4(1, *p as u32), Pa::V6(1, *p as u32)]), true); }
+    for p in &b32 { do_ps(cx, &Ps::SharePeers(vec![Pa::V6(2, *p as u32)]), true); }
+    for w in &b32 { for k in 0..4u32 { do_ps(cx, &Ps::SharePeers(vec![Pa::V6((*w as u128) << (32 * k), 3001)]), true); } }
+    do_ps(cx, &Ps::SharePeers(vec![Pa::V6(u128::MAX, 0)]), true);
+    // handshake
+    let nd = |magic: u64, four: bool, ps: u8| if four { N2n { magic, init_only: true, peer_sharing: Some(ps), query: Some(false) } } else { N2n { magic, init_only: false, peer_sharing: None, query: None } };
+    do_hsn(cx, &Hs::Propose(Default::default())); do_hsn(cx, &Hs::QueryReply(Default::default()));
+    do_hsc(cx, &Hs::Propose(Default::default())); do_hsc(cx, &Hs::QueryReply(Default::default()));
+    for (i, v) in b64.iter().enumerate() {
+        let other = b64[(i + 4) % b64.len()];
+        do_hsn(cx, &Hs::Accept(*v, nd(other, i % 2 == 0, b8[i % b8.len()] as u8))); do_hsn(cx, &Hs::Accept(other, nd(*v, i % 2 == 1, 1)));
+        do_hsn(cx, &Hs::Propose([(*v, nd(other, true, 0))].into_iter().collect())); do_hsn(cx, &Hs::QueryReply([(*v, nd(*v, false, 0))].into_iter().collect()));
+        for q in [None, Some(false), Some(true)] {
+            do_hsc(cx, &Hs::Accept(other, (*v, q)));
+            do_hsc(cx, &Hs::Propose([(other, (*v, q))].into_iter().collect()));
+        }
+        do_hsc(cx, &Hs::Accept(*v, (other, None))); do_hsc(cx, &Hs::QueryReply([(*v, (1, Some(true)))].into_iter().collect()));
+        do_hsn(cx, &Hs::Refuse(Rf::DecodeError(*v, String::new()))); do_hsc(cx, &Hs::Refuse(Rf::Refused(*v, "refused".into())));
+    }
+    for p in &b8 { do_hsn(cx, &Hs::Accept(14, nd(764824073, true, *p as u8))); }
+    do_hsn(cx, &Hs::Refuse(Rf::VersionMismatch(vec![]))); do_hsc(cx, &Hs::Refuse(Rf::VersionMismatch(vec![])));
+    do_hsn(cx, &Hs::Refuse(Rf::VersionMismatch(b64.clone()))); do_hsc(cx, &Hs::Refuse(Rf::VersionMismatch(b64.clone())));
+    do_hsn(cx, &Hs::Refuse(Rf::Refused(13, "\u{20ac}".into()))); do_hsc(cx, &Hs::Refuse(Rf::DecodeError(1, "x".repeat(24))));
+    // localstate
+    for s in &b64 { do_ls(cx, &Ls::Acquire(Some(Pt::Specific(*s, h32())))); do_ls(cx, &Ls::ReAcquire(Some(sp(*s)))); }
+    for m in [Ls::Acquire(None), Ls::ReAcquire(None), Ls::Acquire(Some(Pt::Origin)), Ls::ReAcquire(Some(Pt::Origin)), Ls::Failure(0), Ls::Failure(1), Ls::Acquired, Ls::Release, Ls::Done,
+              Ls::Query(vec![0x80]), Ls::Result(vec![0xf6]), Ls::Query(vec![0x82, 0x00, 0x81, 0x03])] { do_ls(cx, &m); }
+    // localtxsubmission framing
+    for e in &b16 { do_ltx(cx, &Ltx::SubmitTx(*e as u16, vec![0x80])); }
+    for l in lens { do_ltx(cx, &Ltx::SubmitTx(6, vec![3; l])); }
+    for m in [Ltx::AcceptTx, Ltx::Done, Ltx::RejectTx(vec![0x80]), Ltx::RejectTx(vec![0x60])] { do_ltx(cx, &m); }
+    // txmonitor
+    for s in &b64 { do_tm(cx, &Tm::Acquired(*s)); }
+    for e in &b8 { do_tm(cx, &Tm::ResponseNextTx(Some((*e as u8, vec![0x80])))); }
+    for (i, z) in b32.iter().enumerate() { let (a, b) = (b32[(i + 1) % b32.len()] as u32, b32[(i + 2) % b32.len()] as u32); do_tm(cx, &Tm::ResponseSizeAndCapacity(*z as u32, a, b)); }
+    for m in [Tm::Done, Tm::Acquire, Tm::Release, Tm::AwaitAcquire, Tm::RequestNextTx, Tm::ResponseNextTx(None), Tm::ResponseNextTx(Some((0, vec![]))), Tm::RequestHasTx(String::new()),
+              Tm::RequestHasTx("ab".repeat(32)), Tm::ResponseHasTx(true), Tm::ResponseHasTx(false), Tm::RequestSizeAndCapacity] { do_tm(cx, &m); }
+    // leiosnotify / leiosfetch
+    for (i, s) in b64.iter().enumerate() { do_ln(cx, &Ln::BlockOffer(sp(*s), b32[i % b32.len()] as u32)); do_ln(cx, &Ln::BlockTxsOffer(sp(*s))); do_lf(cx, &Lf::BlockRequest(sp(*s))); }
+    for z in &b32 { do_ln(cx, &Ln::BlockOffer(Pt::Origin, *z as u32)); }
+    for m in [Ln::RequestNext, Ln::Done, Ln::Votes(vec![]), Ln::Votes(vec![vec![0x80]]), Ln::BlockAnnouncement(vec![0xa0])] { do_ln(cx, &m); }
+    for (i, k) in b16.iter().enumerate() { do_lf(cx, &Lf::BlockTxsRequest(Pt::Origin, [(*k as u16, b64[i % b64.len()])].into_iter().collect())); }
+    for v in &b64 { do_lf(cx, &Lf::BlockTxs(sp(1), [(0u16, *v), (1u16, 1)].into_iter().collect(), vec![vec![0x01]])); }
+    for m in [Lf::Done, Lf::Block(vec![0x80]), Lf::BlockTxsRequest(Pt::Origin, Default::default()), Lf::BlockTxs(Pt::Origin, Default::default(), vec![])] { do_lf(cx, &m); }
+    // DMQ
+    for (i, v) in b64.iter().enumerate() {
+        let mut d = dmq_default(); d.kes_period = *v; d.issue = b64[(i + 3) % b64.len()]; d.start = b64[(i + 7) % b64.len()]; d.expires_at = b32[i % b32.len()] as u32;
+        do_lms(cx, &Lms::Submit(d.clone())); do_lmn(cx, &Lmn::ReplyBlocking(vec![d]));
+    }
+    for l in lens { let mut d = dmq_default(); d.body = vec![1; l]; d.kes_sig = vec![2; l]; do_lms(cx, &Lms::Submit(d)); }
+    for m in [Lms::Accept, Lms::Done, Lms::Reject(DmqReason::Invalid(String::new())), Lms::Reject(DmqReason::Invalid("InvalidKESSignature (KESPeriod 0) (KESPeriod 0)".into())),
+              Lms::Reject(DmqReason::AlreadyReceived), Lms::Reject(DmqReason::Expired), Lms::Reject(DmqReason::Other(String::new())), Lms::Reject(DmqReason::Other("custom \u{20ac}rror".into()))] { do_lms(cx, &m); }
+    for m in [Lmn::RequestNonBlocking, Lmn::RequestBlocking, Lmn::ClientDone, Lmn::ReplyNonBlocking(vec![], true), Lmn::ReplyNonBlocking(vec![], false), Lmn::ReplyBlocking(vec![]),
+              Lmn::ReplyNonBlocking(vec![dmq_default(), dmq_default()], false)] { do_lmn(cx, &m); }
+    // the "not an array => the whole input is a UTF-8 rejection text" fallback of the localtxsubmission framing (decoder only)
+    if !cx.oracle_only {
+        for b in [&b"ScriptFailure: budget"[..], &[0x00], &[0x61, 0x62], &[0x38], &[0x38, 0x00], &[0x38, 0x00, 0x00], &[0xff], &[0xc3, 0xa9], &[0xc3], &[0x18], &[0x7f, 0x61, 0x61, 0xff], &[]] {
+            run_dec::<s1x::LmsMsg>(cx, 14, "decode-localmsgsubmission-fallback", b);
+        }
+    }
+    // localstate query requests: every parameterless tag, eras on the boundaries
+    for (i, t) in LQ_NULLARY.iter().enumerate() { do_lq(cx, &Lq::Block(b16[i % b16.len()] as u16, *t)); }
+    for e in &b16 { do_lq(cx, &Lq::Block(*e as u16, 3)); }
+    for m in [Lq::HardFork(0), Lq::HardFork(1), Lq::SystemStart, Lq::ChainBlockNo, Lq::ChainPoint] { do_lq(cx, &m); }
+}
+
 fn main() {
     let args = args();
     let mut r = Rng::new(args.seed);
-    let mut cx = Ctx { oracle_only: args.oracle_only, cases: 0, fails: 0, tail: 0, dec_cases: 0, mrng: Rng::new(args.seed ^ 0x5eed_dec0de) };
+    let mut cx = Ctx { oracle_only: args.oracle_only, cases: 0, fails: 0, tail: 0, dec_cases: 0, mutants: 0, mrng: Rng::new(args.seed ^ 0x5eed_dec0de) };
     let cx = &mut cx;
 
     // the refutation witness of the tree before the repair, always first (corpus/C22)
-    for (v6, port) in [(1u128, 3001u32), (0xffff_c00a_02ffu128, 8000)] {
-        let m = Ps::SharePeers(vec![Pa::V6(v6, port)]);
-        let (t, v) = t_ps(&m);
-        run_one(cx, "n1", "peersharing", v, &m, &s1::ps(&m), s1::ps_b, Some(format!("(CPs 4294967296 {} @BYTES@)", t)));
-        run_one(cx, "n2", "peersharing", v, &m, &s2::ps(&m), s2::ps_b, Some(format!("(CPs 65536 {} @BYTES@)", t)));
-    }
+    for (v6, port) in [(1u128, 3001u32), (0xffff_c00a_02ffu128, 8000)] { do_ps(cx, &Ps::SharePeers(vec![Pa::V6(v6, port)]), true); }
+    // deterministic: all variants (incl. empty / payload-free ones), all integer fields on all width boundaries
+    sweep(cx);
+    let swept = cx.cases;
 
+    // random rounds, with the decoder differential on 2 mutants of every encoding
+    cx.mutants = 2;
     let rounds = (args.n / 120).max(1) as u64;
     for round in 0..rounds {
-        for v in 0..3 { let m = gen_ka(&mut r, v); let (t, n) = t_ka(&m);
-            run_one(cx, "n1", "keepalive", n, &m, &s1::ka(&m), s1::ka_b, Some(format!("(CKa {} @BYTES@)", t)));
-            run_one(cx, "n2", "keepalive", n, &m, &s2::ka(&m), s2::ka_b, Some(format!("(CKa {} @BYTES@)", t))); }
-        for v in 0..6 { let m = gen_bf(&mut r, v); let (t, n) = t_bf(&m);
-            run_one(cx, "n1", "blockfetch", n, &m, &s1::bf(&m), s1::bf_b, Some(format!("(CBf {} @BYTES@)", t)));
-            run_one(cx, "n2", "blockfetch", n, &m, &s2::bf(&m), s2::bf_b, Some(format!("(CBf {} @BYTES@)", t))); }
+        for v in 0..3 { do_ka(cx, &gen_ka(&mut r, v)); }
+        for v in 0..6 { do_bf(cx, &gen_bf(&mut r, v)); }
         for v in 0..8 {
-            // node-to-node: header content
-            let m = gen_cs(&mut r, v, gen_hdr); let (t, n) = t_cs(&m, t_hdr);
-            let refused = matches!(&m, Cs::RollForward(h, _) if h.variant == 0 && h.prefix.is_none());
-            if refused {
-                // unrepresentable (variant 0 without byron prefix): the encoder must refuse it; the model agrees
-                for (stack, res) in [("n1", guard(|| minicbor::to_vec(&s1::cs(&m, s1::hdr)).map_err(|e| e.to_string()))), ("n2", guard(|| minicbor::to_vec(&s2::cs(&m, s2::hdr)).map_err(|e| e.to_string())))] {
-                    match res {
-                        Out::Err(_) => if !cx.oracle_only { cx.cases += 1; emit_case(&format!("{}-chainsync-header-RollForward-refused", stack), &format!("(CCsH {} None)", t)) },
-                        Out::Ok(b) => emit_oracle_fail(&format!("{}/chainsync-header/RollForward/encode-accepts-unrepresentable", stack), &format!("message={:?} encoded to {}", m, hex(&b))),
-                        Out::Panic(p) => emit_oracle_fail(&format!("{}/chainsync-header/RollForward/encode-panic", stack), &format!("message={:?} panicked: {}", m, p)),
-                    }
-                }
-            } else {
-                run_one(cx, "n1", "chainsync-header", n, &m, &s1::cs(&m, s1::hdr), |x| s1::cs_b(x, s1::hdr_b), Some(format!("(CCsH {} (Some @BYTES@))", t)));
-                run_one(cx, "n2", "chainsync-header", n, &m, &s2::cs(&m, s2::hdr), |x| s2::cs_b(x, s2::hdr_b), Some(format!("(CCsH {} (Some @BYTES@))", t)));
-            }
-            // node-to-client: block content
-            let m = gen_cs(&mut r, v, blob); let (t, n) = t_cs(&m, |b| coq_bytes(b));
-            run_one(cx, "n1", "chainsync-block", n, &m, &s1::cs(&m, |b| n1::chainsync::BlockContent(b.clone())), |x| s1::cs_b(x, |b: &n1::chainsync::BlockContent| b.0.clone()), Some(format!("(CCsB {} @BYTES@)", t)));
-            run_one(cx, "n2", "chainsync-block", n, &m, &s2::cs(&m, |b| n2::chainsync::BlockContent(b.clone())), |x| s2::cs_b(x, |b: &n2::chainsync::BlockContent| b.0.clone()), Some(format!("(CCsB {} @BYTES@)", t)));
-            // skipped content
-            if round % 4 == 0 {
-                let m: Cs<()> = gen_cs(&mut r, v, |_| ()); let (t, n) = t_cs(&m, |_| "tt".to_string());
-                run_one(cx, "n1", "chainsync-skipped", n, &m, &s1::cs(&m, |_| n1::chainsync::SkippedContent), |x| s1::cs_b(x, |_: &n1::chainsync::SkippedContent| ()), Some(format!("(CCsS {} @BYTES@)", t)));
-                run_one(cx, "n2", "chainsync-skipped", n, &m, &s2::cs(&m, |_| n2::chainsync::SkippedContent), |x| s2::cs_b(x, |_: &n2::chainsync::SkippedContent| ()), Some(format!("(CCsS {} @BYTES@)", t)));
-            }
+            do_csh(cx, &gen_cs(&mut r, v, gen_hdr));
+            do_csb(cx, &gen_cs(&mut r, v, blob));
+            if round % 4 == 0 { do_css(cx, &gen_cs(&mut r, v, |_| ())); }
         }
-        for v in 0..6 { let m = gen_ts(&mut r, v); let (t, n) = t_ts(&m);
-            run_one(cx, "n1", "txsubmission", n, &m, &s1::ts(&m), s1::ts_b, Some(format!("(CTs {} @BYTES@)", t)));
-            run_one(cx, "n2", "txsubmission", n, &m, &s2::ts(&m), s2::ts_b, Some(format!("(CTs {} @BYTES@)", t))); }
-        for v in 0..4 {
-            let m = gen_ps(&mut r, v, u32::MAX); let (t, n) = t_ps(&m);
-            run_one(cx, "n1", "peersharing", n, &m, &s1::ps(&m), s1::ps_b, Some(format!("(CPs 4294967296 {} @BYTES@)", t)));
-            let m = gen_ps(&mut r, v, u16::MAX as u32); let (t, n) = t_ps(&m);
-            run_one(cx, "n2", "peersharing", n, &m, &s2::ps(&m), s2::ps_b, Some(format!("(CPs 65536 {} @BYTES@)", t)));
-        }
-        for v in 0..4 {
-            let m = gen_hs(&mut r, v, gen_n2n); let (t, n) = t_hs(&m, t_n2n);
-            run_one(cx, "n1", "handshake-n2n", n, &m, &s1::hs(&m, s1::n2n), |x| s1::hs_b(x, s1::n2n_b), Some(format!("(CHsN {} @BYTES@)", t)));
-            run_one(cx, "n2", "handshake-n2n", n, &m, &s2::hs(&m, s2::n2n), |x| s2::hs_b(x, s2::n2n_b), Some(format!("(CHsN {} @BYTES@)", t)));
-            let m = gen_hs(&mut r, v, gen_n2c); let (t, n) = t_hs(&m, t_n2c);
-            run_one(cx, "n1", "handshake-n2c", n, &m, &s1::hs(&m, s1::n2c), |x| s1::hs_b(x, s1::n2c_b), Some(format!("(CHsC {} @BYTES@)", t)));
-            run_one(cx, "n2", "handshake-n2c", n, &m, &s2::hs(&m, s2::n2c), |x| s2::hs_b(x, s2::n2c_b), Some(format!("(CHsC {} @BYTES@)", t)));
-        }
-        for v in 0..10 { let m = gen_ls(&mut r, v); let (t, n) = t_ls(&m);
-            run_one(cx, "n1", "localstate", n, &m, &s1::ls(&m), s1::ls_b, Some(format!("(CLs {} @BYTES@)", t))); }
-        for v in 0..4 { let m = gen_ltx(&mut r, v); let (t, n) = t_ltx(&m);
-            run_one(cx, "n1", "localtxsubmission", n, &m, &s1::ltx(&m), s1::ltx_b, Some(format!("(CLtx {} @BYTES@)", t))); }
-        for v in 0..12 { let m = gen_tm(&mut r, v); let (t, n) = t_tm(&m);
-            run_one(cx, "n1", "txmonitor", n, &m, &s1::tm(&m), s1::tm_b, Some(format!("(CTm {} @BYTES@)", t))); }
-        for v in 0..6 { let m = gen_ln(&mut r, v); let (t, n) = t_ln(&m);
-            run_one(cx, "n2", "leiosnotify", n, &m, &s2::ln(&m), s2::ln_b, Some(format!("(CLn {} @BYTES@)", t))); }
-        for v in 0..5 { let m = gen_lf(&mut r, v); let (t, n) = t_lf(&m);
-            run_one(cx, "n2", "leiosfetch", n, &m, &s2::lf(&m), s2::lf_b, Some(format!("(CLf {} @BYTES@)", t))); }
+        for v in 0..6 { do_ts(cx, &gen_ts(&mut r, v)); }
+        for v in 0..4 { do_ps(cx, &gen_ps(&mut r, v, u32::MAX), true); let m = gen_ps(&mut r, v, u16::MAX as u32); do_ps(cx, &m, false); }
+        for v in 0..4 { do_hsn(cx, &gen_hs(&mut r, v, gen_n2n)); do_hsc(cx, &gen_hs(&mut r, v, gen_n2c)); }
+        for v in 0..10 { do_ls(cx, &gen_ls(&mut r, v)); }
+        for v in 0..4 { do_ltx(cx, &gen_ltx(&mut r, v)); }
+        for v in 0..12 { do_tm(cx, &gen_tm(&mut r, v)); }
+        for v in 0..6 { do_ln(cx, &gen_ln(&mut r, v)); }
+        for v in 0..5 { do_lf(cx, &gen_lf(&mut r, v)); }
+        for v in 0..7 { do_lms(cx, &gen_lms(&mut r, v)); }
+        for v in 0..5 { do_lmn(cx, &gen_lmn(&mut r, v)); }
         // long tail, oracle only
         tail::round(cx, &mut r, round);
     }
+    cx.mutants = 0;
     // large payloads (thorough): >= 2^16-byte bodies => 4-byte length heads. Oracle only: a list literal of
     // that size overflows the stack of Coq's parser, and the theorems cover every length anyway.
     if args.tier == "thorough" {
@@ -472,6 +662,7 @@ fn main() {
         run_one(cx, "n1", "txsubmission", n, &m, &s1::ts(&m), s1::ts_b, None);
     }
     tail::reject_samples(cx);
+    emit_stat("sweep_cases", swept);
     emit_stat("tail_messages", cx.tail);
     emit_stat("decoder_differential_cases", cx.dec_cases);
     emit_stat("cases", cx.cases);
